@@ -355,7 +355,8 @@ FLAGS: Dict[str, tuple] = {
 _cli_str = st.text(
     alphabet=st.characters(min_codepoint=0x20, max_codepoint=0x17F, exclude_categories=["Cs"]),
     max_size=10,
-)
+).filter(lambda v: v != "--")  # argparse itself drops a value that is exactly "--" (even in
+# the --flag=-- form): not a statement about hypercorn
 
 
 def _value_strategy(kind: str) -> Any:
